@@ -172,7 +172,9 @@ Lemma chain_cell : forall t bc ia ly bi vis vrn vfc vla vti vcx vcy,
     (forall k v, In (k, v) w -> derived_key k = false -> k <> k_RG -> is_phred k = false ->
                  get k out = Some (TS (fqSafe v))) /\
     (forall k v, In (k, v) w -> derived_key k = false -> is_phred k = true ->
-                 exists p, phred_dec v = Ok p /\ get k out = Some (TS p)).
+                 exists p, phred_dec v = Ok p /\ get k out = Some (TS p)) /\
+    (forall k q e, In (k, e) w -> derived_key k = false -> is_phred k = true -> phred_enc q = Ok e ->
+                 get k out = Some (TS (map saturate q))).
 Proof.
   intros t bc ia ly bi vis vrn vfc vla vti vcx vcy H w Hlen HBC HQT HaA HLY Hbi HIs HRN HFc HLa HTi HCX HCY HP name.
   assert (Hne : w <> []) by (intro E; rewrite E in HBC; discriminate).
@@ -212,11 +214,16 @@ Proof.
   { intros raw Haa. rewrite get_dset_other by discriminate. apply Hah. rewrite G, Haa. reflexivity. }
   split.
   { rewrite get_dset_same. unfold read_group. rewrite HFc', HLa', HSM. cbn [fmt]. reflexivity. }
-  split.
+  split; [|split].
   - intros k v HI Hk Hrg Hph. rewrite get_dset_other by exact Hrg. rewrite Hrest by exact Hk. rewrite G.
     rewrite (get_In k v w ND HI). cbn [option_map]. unfold wv. rewrite Hph. reflexivity.
   - intros k v HI Hk Hph. assert (Hrg : k <> k_RG) by (intro; subst; rewrite PRG in Hph; discriminate).
     pose proof (HP k v HI Hph) as Hl. destruct (phred_dec_letters v Hl) as [p [Ep _]]. exists p. split; [exact Ep|].
     rewrite get_dset_other by exact Hrg. rewrite Hrest by exact Hk. rewrite G, (get_In k v w ND HI). cbn [option_map].
     unfold wv. rewrite Hph, (fqSafe_fixed v (letters_safe v Hl)), Ep. reflexivity.
+  - intros k q e HI Hk Hph Hq. assert (Hrg : k <> k_RG) by (intro; subst; rewrite PRG in Hph; discriminate).
+    destruct (phred_roundtrip q) as [e' [He' [_ [_ Hd']]]]. rewrite Hq in He'. inversion He'; subst e'.
+    pose proof (HP k e HI Hph) as Hl.
+    rewrite get_dset_other by exact Hrg. rewrite Hrest by exact Hk. rewrite G, (get_In k e w ND HI). cbn [option_map].
+    unfold wv. rewrite Hph, (fqSafe_fixed e (letters_safe e Hl)), Hd'. reflexivity.
 Qed.
